@@ -358,6 +358,18 @@ def check_footer(ctx, ht, rule, select=lambda f: True):
             v = FT.bytelen(call.args[0], FA, resolve, g)
             if v is None:
                 raise AnalysisError('cannot normalise the footer write `%s` in %s' % (U(call)[:80], f.qualname))
+            # further writes to the same handle in the same iteration (array and padding written separately)
+            lp = parent(call)
+            while lp is not None and lp is not f.node and not isinstance(lp, ast.For):
+                lp = parent(lp)
+            if isinstance(lp, ast.For):
+                for other in ast.walk(lp):
+                    if isinstance(other, ast.Call) and other is not call and isinstance(other.func, ast.Attribute) and \
+                            other.func.attr == 'write' and U(other.func.value) == U(call.func.value) and other.args:
+                        ov = FT.bytelen(other.args[0], FA, resolve, g)
+                        if ov is None:
+                            raise AnalysisError('cannot normalise the companion write `%s` in %s' % (U(other)[:60], f.qualname))
+                        v = v + ov
             forms[g] = v
             # stride the reader of the OUTPUT derives: that of the source's version when the stamp is carried over,
             # that of the writing library's (current, padded) version when the writer stamps its own
